@@ -4,6 +4,7 @@ import io
 import json
 import os
 import random
+import re
 import signal
 
 from vf.core import Property
@@ -313,6 +314,86 @@ def run(data, mode, cuts, validate=True):
     return {'outcome': outcome, 'events': delivered['events'], 'ontologies': delivered['ontologies'], 'invalid': delivered['invalid']}
 
 
+def partial_upgrade_doc(rng):
+    """A document whose second ontology element first upgrades an event type (a new property of an object type that is new in
+    the same element, or a changed attribute) and then fails on another definition (same version, defined differently, or an
+    invalid definition); events of the upgraded type follow."""
+    from edxml.ontology import Ontology
+    from lxml import etree
+
+    def base(level):
+        o = Ontology()
+        o.create_object_type('oa', data_type='string:0:mc:u')
+        o.create_event_source('/s/')
+        for name in ('ta', 'tb', 'tc'):
+            et = o.create_event_type(name)
+            et.create_property('p', 'oa')
+        if level:
+            up = o.get_event_type(rng.choice(['ta', 'tb']))
+            how = rng.choice(['property', 'property', 'attachment', 'description'])
+            if how == 'property':
+                o.create_object_type('onew', data_type=rng.choice(['number:int', 'string:4:mc:u', 'boolean']))
+                up.create_property('extra', 'onew').make_optional()
+            elif how == 'attachment':
+                up.create_attachment('late')
+            else:
+                up.set_description('revised')
+            up.set_version(2)
+            # ... and a definition that cannot be merged
+            bad = o.get_event_type('tc')
+            rng.choice([lambda: bad.set_description('conflicting'), lambda: bad['p'].make_optional(),
+                        lambda: o.get_object_type('oa').set_description('conflicting')])()
+        return o
+    parts = [b'<edxml xmlns="http://edxml.org/edxml" version="3.0.0">', etree.tostring(base(0).generate_xml())]
+    ev = lambda t, v: ('<event event-type="%s" source-uri="/s/"><properties><p>%s</p></properties></event>' % (t, v)).encode()  # noqa: E731
+    for i in range(rng.randint(0, 2)):
+        parts.append(ev(rng.choice(['ta', 'tb', 'tc']), 'a%d' % i))
+    parts.append(etree.tostring(base(1).generate_xml()))
+    for i in range(rng.randint(1, 4)):
+        parts.append(ev(rng.choice(['ta', 'tb', 'tc']), 'b%d' % i))
+    parts.append(b'</edxml>')
+    return b''.join(parts)
+
+
+def run_resume(data, cuts):
+    """A push parser whose owner catches EDXML errors and keeps feeding the rest of the input: whatever happens afterwards must
+    stay inside the EDXML error family."""
+    from edxml import EDXMLPushParser
+    from edxml.error import EDXMLError
+
+    class Prs(EDXMLPushParser):
+        def _parsed_event(self, event):
+            pass
+    p = Prs(validate=True)
+    outcome, refused = 'ok', 0
+    old = signal.signal(signal.SIGALRM, _alarm)
+    signal.alarm(WATCHDOG_S)
+    try:
+        pos = 0
+        for c in list(cuts) + [len(data)]:
+            if c <= pos:
+                continue
+            try:
+                p.feed(data[pos:c])
+            except EDXMLError:
+                refused += 1
+                if refused > 20:
+                    break
+            pos = c
+        try:
+            p.close()
+        except EDXMLError:
+            refused += 1
+    except Hang:
+        outcome = 'hang'
+    except Exception as ex:  # noqa
+        outcome = 'foreign:' + type(ex).__name__
+    finally:
+        signal.alarm(0)
+        signal.signal(signal.SIGALRM, old)
+    return {'outcome': outcome, 'refused': refused}
+
+
 def run_many(docs, mode, clear=False):
     """Several documents through ONE parser instance (close() makes a parser reusable)."""
     from edxml import EDXMLPullParser, EDXMLPushParser
@@ -398,6 +479,10 @@ class C15(Property):
         for _ in range(40 if tier == 'quick' else 600):
             yield {'kind': 'reuse', 'maxlens': [rng.choice([10, 3, 5, 1]) for _ in range(rng.randint(2, 3))], 'seed': rng.randint(0, 10 ** 9),
                    'clear': rng.random() < 0.5}
+        for _ in range(40 if tier == 'quick' else 1000):
+            # an ontology element that is refused after part of it was merged; the owner of the push parser catches the error
+            # and feeds the events that follow
+            yield {'kind': 'partial-upgrade', 'seed': rng.randint(0, 10 ** 9)}
         for _ in range(60 if tier == 'quick' else 1500):
             # definitions that arrive a second time in another form
             yield {'kind': 'fuzz', 'doc': ['typed', rng.randint(0, 10 ** 6)], 'faults': ['redefine-ontology'], 'seed': rng.randint(0, 10 ** 9)}
@@ -431,12 +516,26 @@ class C15(Property):
             o = c14.PROPERTY.observe(case['c14'])
             return {'err': o['err'], 'delivered': [c for c in o['log'] if c[0] in ('h', 'fb')],
                     'ontologies': [c for c in o['log'] if c[0] == 'ont']}
+        if case['kind'] == 'partial-upgrade':
+            data = partial_upgrade_doc(random.Random(case['seed']))
+            ends = [m.end() for m in re.finditer(rb'</event>|</ontology>', data)]
+            r = {'outcome': run_resume(data, ends)['outcome'], 'events': 0, 'ontologies': 0, 'invalid': []}
+            return {'pull': r, 'push': r}
         if case['kind'] == 'reuse':
             # (a push parser cannot be fed a second document: its XML parser is not renewed by close())
             r = run_many(self.reuse_docs(case), 'pull', case.get('clear', False))
             return {'pull': r, 'push': r}
         data, cuts = self.mutated(case)
-        return {'pull': run(data, 'pull', []), 'push': run(data, 'push', cuts)}
+        obs = {'pull': run(data, 'pull', []), 'push': run(data, 'push', cuts)}
+        if case['seed'] % 3 == 0:
+            # parsers that do not validate must fail as safely (what they deliver is not judged)
+            nv = run(data, 'pull' if case['seed'] % 2 else 'push', [] if case['seed'] % 2 else cuts, validate=False)
+            obs['novalidate'] = {'outcome': nv['outcome']}
+        if case['seed'] % 3 == 1:
+            # the owner of a push parser catches the EDXML error and keeps feeding (element by element)
+            ends = [m.end() for m in re.finditer(rb'</event>|</ontology>', data)]
+            obs['resume'] = {'outcome': run_resume(data, ends)['outcome']}
+        return obs
 
     def requests(self, case):
         if case['kind'] == 'items':
@@ -472,9 +571,25 @@ class C15(Property):
                 return ('%d ontology callbacks for %d accepted ontology elements: an ontology element that the validation gate '
                         'rejects reached a callback before the error' % (len(obs['ontologies']), accepted))
             return None
+        nv = obs.get('novalidate')
+        if nv is not None:
+            if nv['outcome'] == 'hang':
+                return 'a parser created with validate=False, document %s with faults %s: no result after %d seconds' % (case['doc'], case['faults'], WATCHDOG_S)
+            if nv['outcome'].startswith('foreign:'):
+                return 'a parser created with validate=False, document %s with faults %s: raised %s, which is not an EDXML error' % (
+                    case['doc'], case['faults'], nv['outcome'][8:])
+        rs = obs.get('resume')
+        if rs is not None:
+            if rs['outcome'] == 'hang':
+                return 'a push parser that is fed on after an EDXML error, document %s with faults %s: no result after %d seconds' % (
+                    case['doc'], case['faults'], WATCHDOG_S)
+            if rs['outcome'].startswith('foreign:'):
+                return 'a push parser that is fed on after an EDXML error, document %s with faults %s: raised %s, which is not an EDXML error' % (
+                    case['doc'], case['faults'], rs['outcome'][8:])
         for mode in ('pull', 'push'):
             r = obs[mode]
             what = ('%s parser, document %s with faults %s' % (mode, case['doc'], case['faults'])) if case['kind'] == 'fuzz' else \
+                'a push parser that is fed on after an ontology element was refused half way' if case['kind'] == 'partial-upgrade' else \
                 ('one %s parser instance fed documents with string lengths %s%s' % (mode, case['maxlens'], ', its ontology cleared in between' if case.get('clear') else ''))
             if r['outcome'] == 'hang':
                 return '%s: no result after %d seconds' % (what, WATCHDOG_S)
@@ -484,7 +599,7 @@ class C15(Property):
                 return '%s: a callback received something the validation gate rejects: %s' % (what, r['invalid'][:3])
         # Note: the push parser does not notice that a document is incomplete (close() does not close the XML parser), so
         # a truncated document may "succeed" there while the pull parser reports invalid XML. The property allows either.
-        if case['kind'] == 'reuse':
+        if case['kind'] in ('reuse', 'partial-upgrade'):
             return None
         a, b = obs['pull'], obs['push']
         if b['events'] > a['events'] and a['outcome'] == 'ok':
@@ -493,7 +608,7 @@ class C15(Property):
         return None
 
     def neighbours(self, case, rng):
-        if case['kind'] in ('items', 'reuse'):
+        if case['kind'] in ('items', 'reuse', 'partial-upgrade'):
             return []
         return [dict(case, seed=rng.randint(0, 10 ** 9)) for _ in range(40)]
 
